@@ -13,6 +13,12 @@
 //!               variable: the image bit/byte it lands in (little-endian, bit n of byte b).
 //! * `tri`     — the same address bound in %I, %Q and %M at once (areas are independent).
 //! * `pair`    — two bindings in one area whose byte spans overlap or touch.
+//! Extra dimensions: binding site `alltasked` (every program task-bound, INTERVAL 100 ms, cycles at
+//! t = 0/100/125/225 ms: two cycles in which no task is due; an output-bound variable is changed
+//! through the storage API before them; never a debugger attached) — every cycle, idle or not, must
+//! show [read.., write..] and publish encode(variables). For %Q/%M singles and bit-sharing pairs:
+//! value schedule (in cycles 2 and 3 each variable keeps or changes its final value) x external
+//! `IoInterface::write` of a different pattern into the bound spans before cycles 2 and 3.
 //!
 //! What is NOT in the alphabet (expected behaviour not derivable from statement + docs/specs):
 //! * TIME/DATE/TOD/DT/LTIME/LDATE/LTOD/LDT bindings: the compiler accepts them but no encoding is
@@ -30,7 +36,9 @@
 //!
 //! Ambiguities resolved by accepting every reasonable reading:
 //! * two output (or marker) bindings with overlapping spans and different final values cannot both
-//!   be encoded; the published image may be either serialisation (A then B, or B then A).
+//!   be encoded; the published image may be either serialisation (A then B, or B then A), but the
+//!   same one in every cycle of a run: the bytes must be a function of the final values, not of
+//!   which variable happened to change (`publish/%Q:order-flip`).
 //! * "final value" of an output-bound variable = the value found in the variable after the cycle
 //!   (no assumption on task order, that is C06's business); the harness only insists (as a
 //!   machinery check) that all three program segments ran.
@@ -420,20 +428,23 @@ fn mem_pat(c: usize, i: usize) -> u8 {
     }
 }
 
-/// value written by the program to binding `k` in cycle `c` in phase 0 (early), 1 (mid), 2 (late)
-fn src_bits(ty: &Ty, k: usize, c: usize, phase: usize, fault_cycle: usize) -> u64 {
+/// value written by the program to binding `k` in cycle `c` in phase 0 (early), 1 (mid), 2 (late);
+/// phase 3 = value the harness stores into an output-bound variable before an idle cycle.
+/// `ec` is the cycle whose late value is (re)used as this cycle's late value ("keep" schedules).
+fn src_bits(ty: &Ty, k: usize, c: usize, phase: usize, fault_cycle: usize, ec: usize) -> u64 {
     if ty.kind == Kind::Bool {
-        // late alternates per cycle; mid differs from late (premature publication is visible);
-        // in the fault cycle mid differs from the last published value instead
+        // late alternates per (effective) cycle; mid differs from late (premature publication is
+        // visible); in the fault cycle mid differs from the last published value instead
         let late = |c: usize| (c + k) % 2 == 1;
-        let mid = if c == fault_cycle { !late(c.wrapping_sub(1)) } else { !late(c) };
+        let mid = if c == fault_cycle { !late(c.wrapping_sub(1)) } else { !late(ec) };
         let b = match phase {
             0 => !mid,
             1 => mid,
-            _ => late(c),
+            _ => late(ec),
         };
         return b as u64;
     }
+    let c = if phase == 2 { ec } else { c };
     let off = (phase as u8)
         .wrapping_mul(0x07)
         .wrapping_add((c as u8).wrapping_mul(0x35))
@@ -457,15 +468,25 @@ enum Shape {
     Tasks,
     VarCfg,
     Fb,
+    /// every program bound to a task (no background program); INTERVAL 100 ms, some cycles idle
+    AllTasked,
 }
 
 impl Shape {
+    /// (milliseconds the clock advances before the cycle, cycle is idle = no task due)
+    fn cycles(self) -> &'static [(i64, bool)] {
+        match self {
+            Shape::AllTasked => &[(0, true), (100, false), (25, true), (100, false)],
+            _ => &[(10, false), (10, false), (10, false)],
+        }
+    }
     fn name(self) -> &'static str {
         match self {
             Shape::Local => "local",
             Shape::Tasks => "tasks",
             Shape::VarCfg => "varcfg",
             Shape::Fb => "fb",
+            Shape::AllTasked => "alltasked",
         }
     }
     fn parse(s: &str) -> Option<Shape> {
@@ -474,6 +495,7 @@ impl Shape {
             "tasks" => Shape::Tasks,
             "varcfg" => Shape::VarCfg,
             "fb" => Shape::Fb,
+            "alltasked" => Shape::AllTasked,
             _ => return None,
         })
     }
@@ -518,9 +540,25 @@ struct Case {
     fault_cycle: usize,
     binds: Vec<Bind>,
     partial: Option<Partial>,
+    /// value schedule of bindings 0 and 1: bit (c-2)*2+k set = in cycle c (2 or 3) variable k
+    /// ends the cycle with the same final value as in the previous cycle
+    sched: u8,
+    /// before cycles 2 and 3 something else writes a different pattern into every bound %Q/%M
+    /// span through `IoInterface::write`
+    ext: bool,
 }
 
 impl Case {
+    fn eff_cycle(&self, k: usize, c: usize) -> usize {
+        let mut e = c;
+        while (2..=3).contains(&e) && k < 2 && (self.sched >> ((e - 2) * 2 + k)) & 1 == 1 {
+            e -= 1;
+        }
+        e
+    }
+    fn val(&self, k: usize, c: usize, phase: usize) -> u64 {
+        src_bits(self.binds[k].ty, k, c, phase, self.fault_cycle, self.eff_cycle(k, c))
+    }
     fn to_json(&self) -> J {
         let mut j = json!({
             "family": self.family,
@@ -531,6 +569,10 @@ impl Case {
         });
         if let Some(p) = &self.partial {
             j["partial"] = json!({"kind": p.kind.to_string(), "idx": p.idx});
+        }
+        if self.sched != 0 || self.ext {
+            j["sched"] = json!(self.sched);
+            j["ext"] = json!(self.ext);
         }
         j
     }
@@ -560,6 +602,8 @@ impl Case {
             fault_cycle: j["fault_cycle"].as_u64()? as usize,
             binds,
             partial,
+            sched: j["sched"].as_u64().unwrap_or(0) as u8,
+            ext: j["ext"].as_bool().unwrap_or(false),
         })
     }
 }
@@ -719,12 +763,16 @@ fn source_of(case: &Case) -> String {
             s.push_str(&body(&[0, 1, 2]));
             s.push_str("END_FUNCTION_BLOCK\nPROGRAM Main\nVAR\n  fb : Blk;\nEND_VAR\nfb();\nEND_PROGRAM\n");
         }
-        Shape::Tasks => {
+        Shape::Tasks | Shape::AllTasked => {
             s.push_str("CONFIGURATION Conf\nVAR_GLOBAL\n");
             for v in &p.vars {
                 s.push_str(&decl(v, false));
             }
-            s.push_str("END_VAR\nTASK TA (INTERVAL := T#10ms, PRIORITY := 0);\nTASK TB (INTERVAL := T#10ms, PRIORITY := 1);\nPROGRAM PA WITH TA : ProgA;\nPROGRAM PB WITH TB : ProgB;\nPROGRAM PC : ProgC;\nEND_CONFIGURATION\n");
+            if case.shape == Shape::Tasks {
+                s.push_str("END_VAR\nTASK TA (INTERVAL := T#10ms, PRIORITY := 0);\nTASK TB (INTERVAL := T#10ms, PRIORITY := 1);\nPROGRAM PA WITH TA : ProgA;\nPROGRAM PB WITH TB : ProgB;\nPROGRAM PC : ProgC;\nEND_CONFIGURATION\n");
+            } else {
+                s.push_str("END_VAR\nTASK TA (INTERVAL := T#100ms, PRIORITY := 0);\nTASK TB (INTERVAL := T#100ms, PRIORITY := 1);\nTASK TC (INTERVAL := T#100ms, PRIORITY := 2);\nPROGRAM PA WITH TA : ProgA;\nPROGRAM PB WITH TB : ProgB;\nPROGRAM PC WITH TC : ProgC;\nEND_CONFIGURATION\n");
+            }
             for (g, name) in ["ProgA", "ProgB", "ProgC"].iter().enumerate() {
                 s.push_str(&format!("PROGRAM {name}\nVAR_EXTERNAL\n"));
                 for u in &p.uses[g] {
@@ -839,8 +887,9 @@ fn permute(idx: &mut Vec<usize>, k: usize, out: &mut Vec<Vec<usize>>) {
 
 /// Compares an image (as given to a driver / found in the runtime) with the reference model:
 /// `base` with the final values of all bound variables of this area written into their spans,
-/// in any order. Ok(order index) or Err((signature tail, description)).
-fn check_image(area: Area, base: &[u8], got: &[u8], ws: &[WriteSpec]) -> Result<usize, (String, String)> {
+/// in any order. Ok(bit mask of the orders of `orders(n)` that explain the image) or
+/// Err((signature tail, description)).
+fn check_image(area: Area, base: &[u8], got: &[u8], ws: &[WriteSpec]) -> Result<u32, (String, String)> {
     let a = area.ch();
     if got.len() != base.len() {
         return Err((
@@ -849,10 +898,14 @@ fn check_image(area: Area, base: &[u8], got: &[u8], ws: &[WriteSpec]) -> Result<
         ));
     }
     let ords = orders(ws.len());
+    let mut mask = 0u32;
     for (oi, ord) in ords.iter().enumerate() {
         if apply_writes(base, ws, ord) == got {
-            return Ok(oi);
+            mask |= 1 << oi;
         }
+    }
+    if mask != 0 {
+        return Ok(mask);
     }
     let nbits = base.len() * 8;
     let mut cover = vec![0u8; nbits];
@@ -969,6 +1022,27 @@ fn check_image(area: Area, base: &[u8], got: &[u8], ws: &[WriteSpec]) -> Result<
     ))
 }
 
+/// Published bytes must be a function of the final values: with conflicting overlapping bindings
+/// either serialisation order is accepted, but it has to be the same one in every cycle of a run
+/// (otherwise equal final values could give different images depending on history).
+fn order_consistency(area: Area, seen: &mut BTreeMap<Area, u32>, mask: u32, ws: &[WriteSpec]) -> Option<(String, String)> {
+    let cur = seen.get_mut(&area).unwrap();
+    let before = *cur;
+    *cur &= mask;
+    if *cur != 0 || before == 0 {
+        return None;
+    }
+    let name = |m: u32| if m & 1 == 1 { "declaration order (the later binding wins)" } else { "reverse declaration order (the earlier binding wins)" };
+    Some((
+        format!("publish/%{}:order-flip", area.ch()),
+        format!(
+            "overlapping bindings {}: earlier cycles were only explained by writing them in {}, this cycle only by {}; the published bytes are not a function of the final values",
+            ws.iter().map(|w| format!("{}={:#x}", w.addr.text(), w.fin)).collect::<Vec<_>>().join(", "),
+            name(before), name(mask)
+        ),
+    ))
+}
+
 /// A variable read by the program against the latched image.
 fn check_latch(
     b: &Bind,
@@ -1055,6 +1129,9 @@ struct Stats {
     order_decl_wins_first: u64,
     exchange_fault: Option<String>,
     image_changed: bool,
+    idle_cycles_checked: u64,
+    idle_outputs_changed: u64,
+    sched_conflicts: u64,
 }
 
 enum Home {
@@ -1096,7 +1173,7 @@ fn find_home(rt: &Runtime, shape: Shape) -> Result<Home, String> {
         }
     };
     Ok(match shape {
-        Shape::Tasks => Home::Global,
+        Shape::Tasks | Shape::AllTasked => Home::Global,
         Shape::Local => Home::Inst(inst("Main")?),
         Shape::VarCfg => Home::Inst(inst("P1")?),
         Shape::Fb => {
@@ -1174,23 +1251,30 @@ fn run_case(case: &Case) -> Result<CaseRun, String> {
     let has_m = case.binds.iter().any(|b| b.addr.area == Area::M);
     let expected_pattern: String = (0..case.drivers).map(|d| format!("R{d}")).chain((0..case.drivers).map(|d| format!("W{d}"))).collect();
 
-    for c in 1..=3usize {
+    // serialisation orders of overlapping bindings that explain every cycle so far (per area)
+    let mut order_mask: BTreeMap<Area, u32> = BTreeMap::new();
+    order_mask.insert(Area::Q, u32::MAX);
+    order_mask.insert(Area::M, u32::MAX);
+    let plan = case.shape.cycles();
+    for c in 1..=plan.len() {
+        let (dt_ms, idle) = plan[c - 1];
         let is_fault_cycle = faulted_at.is_none() && case.fault_cycle == c;
         // ---- stimulus -------------------------------------------------------------------
+        let mut idle_set: Vec<Option<u64>> = vec![None; case.binds.len()];
         if faulted_at.is_none() {
             set_var(rt, &home, "stamp", Value::Int(c as i16))?;
             set_var(rt, &home, "trip", Value::Bool(is_fault_cycle))?;
             for (k, b) in case.binds.iter().enumerate() {
                 if b.addr.area.writes() {
                     for (ph, n) in ["se", "sm", "sl"].iter().enumerate() {
-                        set_var(rt, &home, &format!("{n}{k}"), mk_value(b.ty, src_bits(b.ty, k, c, ph, case.fault_cycle)))?;
+                        set_var(rt, &home, &format!("{n}{k}"), mk_value(b.ty, case.val(k, c, ph)))?;
                     }
                 }
             }
             if let Some(pa) = &case.partial {
                 if case.binds[0].addr.area.writes() {
                     // the part written is the complement of what the whole-variable write leaves there
-                    let whole = src_bits(case.binds[0].ty, 0, c, 2, case.fault_cycle);
+                    let whole = case.val(0, c, 2);
                     let cur = (whole >> (pa.idx * pa.size().bits())) & pa.size().mask();
                     set_var(rt, &home, "pv", mk_value(bits_type(pa.size()), !cur))?;
                 }
@@ -1198,6 +1282,27 @@ fn run_case(case: &Case) -> Result<CaseRun, String> {
             if has_m {
                 for (i, b) in rt.io_mut().memory_mut().iter_mut().enumerate() {
                     *b = mem_pat(c, i);
+                }
+            }
+            if idle {
+                // no program will run: an output-bound variable is changed from outside (storage API)
+                for (k, b) in case.binds.iter().enumerate() {
+                    if b.addr.area != Area::Q {
+                        continue;
+                    }
+                    let cur = get_var(rt, &home, &format!("b{k}")).and_then(|v| value_bits(b.ty, &v));
+                    let nv = if b.ty.kind == Kind::Bool { !cur.unwrap_or(0) & 1 } else { case.val(k, c, 3) };
+                    set_var(rt, &home, &format!("b{k}"), mk_value(b.ty, nv))?;
+                    idle_set[k] = Some(nv);
+                }
+            }
+            if case.ext && c >= 2 {
+                // something outside write_outputs changes the bound spans of the %Q/%M images
+                for b in case.binds.iter().filter(|b| b.addr.area.writes()) {
+                    let img = if b.addr.area == Area::Q { rt.io().outputs() } else { rt.io().memory() };
+                    let nv = !img_get(img, &b.addr) & b.addr.size.mask();
+                    let parsed = IoAddress::parse(&b.addr.text()).map_err(|e| format!("parse {}: {e:?}", b.addr.text()))?;
+                    rt.io_mut().write(&parsed, api_value(b.addr.size, nv)).map_err(|e| format!("external write {}: {e:?}", b.addr.text()))?;
                 }
             }
         }
@@ -1209,7 +1314,7 @@ fn run_case(case: &Case) -> Result<CaseRun, String> {
             .enumerate()
             .map(|(k, b)| get_var(rt, &home, &format!("b{k}")).and_then(|v| value_bits(b.ty, &v)))
             .collect();
-        rt.advance_time(Duration::from_millis(10));
+        rt.advance_time(Duration::from_millis(dt_ms));
         let res = match catch(|| rt.execute_cycle()) {
             Ok(r) => r,
             Err(m) => {
@@ -1267,7 +1372,7 @@ fn run_case(case: &Case) -> Result<CaseRun, String> {
                     .binds
                     .iter()
                     .enumerate()
-                    .map(|(k, b)| vec![src_bits(b.ty, k, c, 0, case.fault_cycle), src_bits(b.ty, k, c, 1, case.fault_cycle)])
+                    .map(|(k, _)| vec![case.val(k, c, 0), case.val(k, c, 1)])
                     .collect();
                 // the interesting branch: the early/mid writes really happened before the fault
                 let visible = case.binds.iter().enumerate().any(|(k, b)| {
@@ -1348,9 +1453,15 @@ fn run_case(case: &Case) -> Result<CaseRun, String> {
         let i16t = &TYPES[6];
         for n in ["ma", "mb", "mc"] {
             let v = get_var(rt, &home, n).and_then(|v| value_bits(i16t, &v));
-            if v != Some(c as u64) {
+            if !idle && v != Some(c as u64) {
                 return Err(format!("cycle {c}: segment marker {n} = {v:?}: not every program segment ran: {}", case.to_json()));
             }
+            if idle && v == Some(c as u64) {
+                return Err(format!("cycle {c} was meant to be idle but segment {n} ran: {}", case.to_json()));
+            }
+        }
+        if idle {
+            stats.idle_cycles_checked += 1;
         }
         // (1) driver calls
         if pattern != expected_pattern {
@@ -1364,7 +1475,7 @@ fn run_case(case: &Case) -> Result<CaseRun, String> {
         // (2) latched values
         let alts_in: Vec<(&'static str, &[u8])> = vec![("later-call", &model_in[..]), ("previous-cycle", &model_prev[..])];
         let alts_mem: Vec<(&'static str, &[u8])> = vec![("previous-cycle-end", &prev_mem_end[..])];
-        if case.partial.is_none() {
+        if case.partial.is_none() && !idle {
             for (k, b) in case.binds.iter().enumerate() {
                 let (latched, alts, names): (&[u8], &[(&'static str, &[u8])], Vec<(&str, String)>) = match b.addr.area {
                     Area::I => (&model_first[..], &alts_in[..], vec![("first", format!("ra{k}")), ("middle", format!("rm{k}")), ("last", format!("rz{k}"))]),
@@ -1410,7 +1521,7 @@ fn run_case(case: &Case) -> Result<CaseRun, String> {
                 continue;
             }
             let fin = get_var(rt, &home, &format!("b{k}")).and_then(|v| value_bits(b.ty, &v));
-            let late = src_bits(b.ty, k, c, 2, case.fault_cycle);
+            let late = case.val(k, c, 2);
             let mut want = late;
             if k == 0 {
                 if let Some(pa) = &case.partial {
@@ -1422,7 +1533,12 @@ fn run_case(case: &Case) -> Result<CaseRun, String> {
             let Some(fin) = fin else {
                 return Err(format!("cycle {c}: b{k} has no numeric value: {}", case.to_json()));
             };
-            if fin != want {
+            if idle {
+                // nothing ran: the final value is whatever the variable holds (set from outside for %Q)
+                if idle_set[k].is_some() && idle_set[k] == Some(fin) && img_get(&out_before, &b.addr) != fin {
+                    stats.idle_outputs_changed += 1;
+                }
+            } else if fin != want {
                 match &case.partial {
                     None => return Err(format!("cycle {c}: b{k} = {fin:#x} after the cycle, the late write should have left {want:#x}: {}", case.to_json())),
                     Some(pa) => push(
@@ -1437,10 +1553,7 @@ fn run_case(case: &Case) -> Result<CaseRun, String> {
                 }
             }
             let base = if b.addr.area == Area::Q { &out_before } else { &mem_before };
-            let mut alts = vec![
-                ("early", src_bits(b.ty, k, c, 0, case.fault_cycle)),
-                ("mid", src_bits(b.ty, k, c, 1, case.fault_cycle)),
-            ];
+            let mut alts = if idle { Vec::new() } else { vec![("early", case.val(k, c, 0)), ("mid", case.val(k, c, 1))] };
             if let Some(vb) = var_before[k] {
                 alts.push(("cycle-start", vb));
             }
@@ -1454,18 +1567,20 @@ fn run_case(case: &Case) -> Result<CaseRun, String> {
         for (label, img) in &images {
             stats.publish_comparisons += 1;
             match check_image(Area::Q, &out_before, img, qspecs) {
-                Ok(oi) => {
-                    if qspecs.len() == 2 {
-                        let a = apply_writes(&out_before, qspecs, &[0, 1]);
-                        let b = apply_writes(&out_before, qspecs, &[1, 0]);
-                        if a != b {
-                            stats.overlap_conflicts += 1;
-                            if oi == 0 {
-                                stats.order_decl_wins_last += 1;
-                            } else {
-                                stats.order_decl_wins_first += 1;
-                            }
+                Ok(mask) => {
+                    if qspecs.len() == 2 && mask != 0b11 {
+                        stats.overlap_conflicts += 1;
+                        if mask == 0b01 {
+                            stats.order_decl_wins_last += 1;
+                        } else {
+                            stats.order_decl_wins_first += 1;
                         }
+                        if case.sched != 0 || case.ext {
+                            stats.sched_conflicts += 1;
+                        }
+                    }
+                    if let Some((tail, what)) = order_consistency(Area::Q, &mut order_mask, mask, qspecs) {
+                        push(&mut viols, tail, format!("output image {label}: {what}"), c);
                     }
                     if *img != &out_before[..] {
                         stats.image_changed = true;
@@ -1480,7 +1595,13 @@ fn run_case(case: &Case) -> Result<CaseRun, String> {
         let mspecs = &specs[&Area::M];
         stats.publish_comparisons += 1;
         match check_image(Area::M, &mem_before, rt.io().memory(), mspecs) {
-            Ok(_) => {
+            Ok(mask) => {
+                if mspecs.len() == 2 && mask != 0b11 && (case.sched != 0 || case.ext) {
+                    stats.sched_conflicts += 1;
+                }
+                if let Some((tail, what)) = order_consistency(Area::M, &mut order_mask, mask, mspecs) {
+                    push(&mut viols, tail, format!("marker image after the cycle: {what}"), c);
+                }
                 if rt.io().memory() != &mem_before[..] {
                     stats.image_changed = true;
                 }
@@ -1686,6 +1807,9 @@ struct Plan {
     pair_all_types: bool,
     pair_ordered: bool,
     partial_offsets: Vec<usize>,
+    /// value schedules x external image writes (see `Case::sched`, `Case::ext`)
+    shapes_sched_single: Vec<Shape>,
+    pair_scheds: Vec<u8>,
 }
 
 fn variants(shapes: &[Shape], faults: &[usize], has_q: bool, full: bool) -> Vec<(Shape, usize, usize)> {
@@ -1696,6 +1820,9 @@ fn variants(shapes: &[Shape], faults: &[usize], has_q: bool, full: bool) -> Vec<
             continue;
         }
         for &sh in shapes {
+            if f != 0 && sh == Shape::AllTasked {
+                continue;
+            }
             for d in [1usize, 2] {
                 if !full {
                     // reduced product: one driver for local/varcfg, two for tasks/fb
@@ -1727,7 +1854,7 @@ fn enumerate(plan: &Plan) -> Vec<Case> {
             if f != 0 && b.addr.area != Area::Q {
                 continue;
             }
-            cases.push(Case { family: "single", shape: sh, drivers: d, fault_cycle: f, binds: vec![b.clone()], partial: None });
+            cases.push(Case { family: "single", shape: sh, drivers: d, fault_cycle: f, binds: vec![b.clone()], partial: None, sched: 0, ext: false });
         }
     }
     // partial access on a bound bit-string variable
@@ -1749,6 +1876,58 @@ fn enumerate(plan: &Plan) -> Vec<Case> {
                                 fault_cycle: 0,
                                 binds: vec![Bind { addr, ty: bits_type(size) }],
                                 partial: Some(Partial { kind, idx }),
+                                sched: 0,
+                                ext: false,
+                            });
+                        }
+                    }
+                }
+            }
+        }
+    }
+    // value schedules (keep/change per cycle) x external image writes, output and marker areas
+    for &sh in &plan.shapes_sched_single {
+        for ext in [false, true] {
+            for sched in [0b0000u8, 0b0001, 0b0100, 0b0101] {
+                if sched == 0 && !ext {
+                    continue; // the plain single cases above
+                }
+                for b in singles.iter().filter(|b| b.addr.area.writes()) {
+                    cases.push(Case { family: "single", shape: sh, drivers: 1, fault_cycle: 0, binds: vec![b.clone()], partial: None, sched, ext });
+                }
+            }
+        }
+    }
+    for ext in [false, true] {
+        for &sched in &plan.pair_scheds {
+            if sched == 0 && !ext {
+                continue;
+            }
+            for area in [Area::Q, Area::M] {
+                let addrs = addresses(area);
+                for (i, a) in addrs.iter().enumerate() {
+                    for (j, b) in addrs.iter().enumerate() {
+                        // only pairs that really share bits: that is where the order of the two writes shows
+                        if !matches!(relation(a, b), "overlap" | "same") {
+                            continue;
+                        }
+                        let ta = types_of(a.size);
+                        let tb = types_of(b.size);
+                        let combos: Vec<(&'static Ty, &'static Ty)> = if plan.pair_all_types {
+                            ta.iter().flat_map(|x| tb.iter().map(move |y| (*x, *y))).collect()
+                        } else {
+                            vec![(ta[(i + j + sched as usize) % ta.len()], tb[(i + 2 * j + 1 + sched as usize) % tb.len()])]
+                        };
+                        for (x, y) in combos {
+                            cases.push(Case {
+                                family: "pair",
+                                shape: Shape::Local,
+                                drivers: 1,
+                                fault_cycle: 0,
+                                binds: vec![Bind { addr: *a, ty: x }, Bind { addr: *b, ty: y }],
+                                partial: None,
+                                sched,
+                                ext,
                             });
                         }
                     }
@@ -1757,11 +1936,11 @@ fn enumerate(plan: &Plan) -> Vec<Case> {
         }
     }
     // the same address in all three areas
-    for (sh, d, f) in variants(&plan.shapes_pair, &plan.faults, true, false) {
+    for (sh, d, f) in variants(&plan.shapes_single, &plan.faults, true, false) {
         for addr in addresses(Area::I) {
             for ty in types_of(addr.size) {
                 let binds = AREAS.iter().map(|&a| Bind { addr: Addr { area: a, ..addr }, ty }).collect();
-                cases.push(Case { family: "tri", shape: sh, drivers: d, fault_cycle: f, binds, partial: None });
+                cases.push(Case { family: "tri", shape: sh, drivers: d, fault_cycle: f, binds, partial: None, sched: 0, ext: false });
             }
         }
     }
@@ -1785,14 +1964,14 @@ fn enumerate(plan: &Plan) -> Vec<Case> {
                     if plan.pair_all_types {
                         for x in &ta {
                             for y in &tb {
-                                cases.push(Case { family: "pair", shape: sh, drivers: d, fault_cycle: f, binds: vec![Bind { addr: *a, ty: x }, Bind { addr: *b, ty: y }], partial: None });
+                                cases.push(Case { family: "pair", shape: sh, drivers: d, fault_cycle: f, binds: vec![Bind { addr: *a, ty: x }, Bind { addr: *b, ty: y }], partial: None, sched: 0, ext: false });
                             }
                         }
                     } else {
                         // one type per member, rotating through the types of its size
                         let x = ta[(i + j) % ta.len()];
                         let y = tb[(i + 2 * j + 1) % tb.len()];
-                        cases.push(Case { family: "pair", shape: sh, drivers: d, fault_cycle: f, binds: vec![Bind { addr: *a, ty: x }, Bind { addr: *b, ty: y }], partial: None });
+                        cases.push(Case { family: "pair", shape: sh, drivers: d, fault_cycle: f, binds: vec![Bind { addr: *a, ty: x }, Bind { addr: *b, ty: y }], partial: None, sched: 0, ext: false });
                     }
                 }
             }
@@ -1815,9 +1994,14 @@ pub fn run(ctx: &Ctx) -> EngineResult {
     let mut rep = Report::new("exploration");
     let deadline = Instant::now() + StdDuration::from_secs(ctx.tier.pick(38, 840));
     let all = vec![Shape::Local, Shape::Tasks, Shape::VarCfg, Shape::Fb];
+    let mut with_idle = all.clone();
+    with_idle.push(Shape::AllTasked);
     let plan = Plan {
-        shapes_single: all.clone(),
-        shapes_pair: all.clone(),
+        shapes_single: with_idle.clone(),
+        shapes_pair: ctx.tier.pick(all.clone(), with_idle.clone()),
+        shapes_sched_single: ctx.tier.pick(vec![Shape::Local, Shape::Tasks], all.clone()),
+        // quick: every keep/change combination occurs once in cycle 2 and once in cycle 3
+        pair_scheds: ctx.tier.pick(vec![0b0000, 0b1100, 0b1001, 0b0110, 0b0011], (0..16).collect()),
         shapes_partial: ctx.tier.pick(vec![Shape::Local], vec![Shape::Local, Shape::Tasks]),
         faults: ctx.tier.pick(vec![2], vec![1, 2, 3]),
         pair_all_types: ctx.tier.pick(false, true),
@@ -1875,6 +2059,7 @@ pub fn run(ctx: &Ctx) -> EngineResult {
     let sample_at: Vec<usize> = vec![1, cases.len() / 40, cases.len() / 8, cases.len() / 3, cases.len() * 3 / 4];
     let mut broken: HashSet<(char, Size)> = HashSet::new();
     let mut subsumed = 0u64;
+    let mut sched_cases = 0u64;
     for (case, r) in cases.iter().zip(res) {
         let Some(r) = r else {
             exhaustive = false;
@@ -1914,6 +2099,12 @@ pub fn run(ctx: &Ctx) -> EngineResult {
         tot.overlap_conflicts += st.overlap_conflicts;
         tot.order_decl_wins_last += st.order_decl_wins_last;
         tot.order_decl_wins_first += st.order_decl_wins_first;
+        tot.idle_cycles_checked += st.idle_cycles_checked;
+        tot.idle_outputs_changed += st.idle_outputs_changed;
+        tot.sched_conflicts += st.sched_conflicts;
+        if case.sched != 0 || case.ext {
+            sched_cases += 1;
+        }
         if rep.samples.len() < 5 && st.normal_cycles_checked > 0 && sample_at.contains(&executed) {
             rep.sample(json!({"case": case.to_json(), "source": source_of(case)}));
         }
@@ -1922,7 +2113,9 @@ pub fn run(ctx: &Ctx) -> EngineResult {
         // that group in a one-binding case — otherwise one broken size would show up once per
         // partner size and relation. Enumeration order guarantees singles come first.
         for v in run.viols {
-            let group = if v.signature.starts_with("C07/publish/") || v.signature.starts_with("C07/locality/") {
+            let group = if v.signature.ends_with(":order-flip") {
+                None // needs two bindings by nature
+            } else if v.signature.starts_with("C07/publish/") || v.signature.starts_with("C07/locality/") {
                 Some('w')
             } else if v.signature.starts_with("C07/latch/") {
                 Some('r')
@@ -1970,6 +2163,12 @@ pub fn run(ctx: &Ctx) -> EngineResult {
     if tot.latch_comparisons == 0 || tot.publish_comparisons == 0 || tot.fault_cycles_checked == 0 || tot.fault_value_was_visible == 0 {
         return machinery(format!("vacuous exploration: {tot:?}"));
     }
+    if executed == cases.len() && (tot.idle_cycles_checked == 0 || tot.idle_outputs_changed == 0) {
+        return machinery(format!("no idle cycle (no task due) with an externally changed output variable was checked: {tot:?}"));
+    }
+    if executed == cases.len() && (sched_cases == 0 || tot.sched_conflicts == 0) {
+        return machinery("no keep/change value schedule on overlapping bindings reached a cycle with conflicting final values");
+    }
     if executed == cases.len() && tot.overlap_conflicts == 0 {
         return machinery("no overlapping output pair with conflicting final values was executed");
     }
@@ -1977,7 +2176,7 @@ pub fn run(ctx: &Ctx) -> EngineResult {
     rep.set("distinct_nontrivial", distinct.len() as u64);
     rep.set(
         "rule",
-        "cases = api (every address x 2 fill patterns) + binding sets: every single binding (area x {X bit0-7,B,W,D,L} x byte offset {0,1,2,3,7} x every declared type of that width) and every pair in one area whose byte spans overlap or touch (quick: unordered, one rotating type per member; thorough: ordered, all type pairs), the same address in %I+%Q+%M, and IEC partial accesses on bound bit strings; each multiplied by binding site {program VAR, VAR_GLOBAL with two tasks + background program, AT %* + VAR_CONFIG, FB VAR}, 1 or 2 logging drivers and {no fault, division by zero in cycle f}. distinct_nontrivial = distinct cases (hash of the case description) that compiled, completed at least one fully checked cycle and in which a latched value or a written image differed from the 0xA5 pre-fill.",
+        "cases = api (every address x 2 fill patterns) + binding sets: every single binding (area x {X bit0-7,B,W,D,L} x byte offset {0,1,2,3,7} x every declared type of that width) and every pair in one area whose byte spans overlap or touch (quick: unordered, one rotating type per member; thorough: ordered, all type pairs), the same address in %I+%Q+%M, and IEC partial accesses on bound bit strings; each multiplied by binding site {program VAR, VAR_GLOBAL with two tasks + background program, AT %* + VAR_CONFIG, FB VAR, VAR_GLOBAL with every program task-bound at INTERVAL 100 ms and cycles at t=0,100,125,225 ms (two idle cycles, output variables changed through the storage API)}, 1 or 2 logging drivers and {no fault, division by zero in cycle f}; for %Q/%M singles and bit-sharing pairs additionally value schedule (per cycle 2,3 each variable keeps or changes its final value) x {no, yes} external IoInterface::write of a different pattern into the bound spans before cycles 2 and 3. distinct_nontrivial = distinct cases (hash of the case description) that compiled, completed at least one fully checked cycle and in which a latched value or a written image differed from the 0xA5 pre-fill.",
     );
     rep.set("binding_cases_enumerated", cases.len() as u64);
     rep.set("binding_cases_executed", executed as u64);
@@ -1993,11 +2192,15 @@ pub fn run(ctx: &Ctx) -> EngineResult {
     rep.set("overlap_conflicts_checked", tot.overlap_conflicts);
     rep.set("overlap_later_declared_binding_wins", tot.order_decl_wins_last);
     rep.set("overlap_earlier_declared_binding_wins", tot.order_decl_wins_first);
+    rep.set("idle_cycles_checked", tot.idle_cycles_checked);
+    rep.set("idle_cycles_with_output_variable_changed_from_outside", tot.idle_outputs_changed);
+    rep.set("value_schedule_or_external_write_cases", sched_cases);
+    rep.set("value_schedule_cycles_with_conflicting_overlap", tot.sched_conflicts);
     rep.set("types_in_alphabet", TYPES.len() as u64);
     rep.set("exhaustive", exhaustive);
     rep.assume("value type tags are not inspected (C03); values are compared as bit patterns of the declared width");
     rep.assume("a fault raised by the I/O exchange itself (coercion error) makes the cycle a faulted cycle, which may publish nothing; such cycles are counted in exchange_faults_not_reported");
-    rep.assume("overlapping output/marker bindings with different final values: either serialisation of the two writes is accepted");
+    rep.assume("overlapping output/marker bindings with different final values: either serialisation of the two writes is accepted, but the same one in every cycle of a run (published bytes must be a function of the final values)");
     rep.assume("AT size prefix and declared type agree in every enumerated binding; TIME/DATE-like types are outside the alphabet (see non_alphabet_types)");
     Ok(rep)
 }
